@@ -12,7 +12,7 @@
    The final conversion of the result to float64 is outside the model and nothing is stated
    about it here.  Every theorem holds for ALL operands (no bound on digits or exponents). *)
 From Coq Require Import QArith Qabs ZArith List String.
-From Formula Require Import Num.Dec Sem.Value Sem.Eval Proofs.DecFacts Proofs.DecVal Proofs.DecArith.
+From Formula Require Import Num.Dec Num.Float Sem.Value Sem.Eval Proofs.DecFacts Proofs.DecVal Proofs.DecArith Proofs.FloatFacts.
 
 (* ---------- the vocabulary, unfolded ---------- *)
 
@@ -320,6 +320,52 @@ Example int64_above_2_53 :
   dec_cmp (dec_of_Z 9007199254740993) (ds "9007199254740992") = 1.
 Proof. exact DecArith.int64_above_2_53. Qed.
 
+
+(* ---- the float64 finally handed back: the binary64 nearest the decimal result (Num/Float.v) ----
+   f64_of_dec d is the model of strconv.ParseFloat(d.String(), 64); a finite result FFin neg m e denotes
+   (-1)^neg * m * 2^e.  All statements are cross-multiplied in Z (no reals): num/den is the exact value of
+   the decimal (dec_num c e / dec_den e), ival m e = m * 2^(e+1074) the result scaled by 2^1074.
+   They hold for EVERY decimal, which covers the clause "an integer of at most 15 digits scaled by a power of ten
+   within 10^-22..10^22" and makes the "four units in the last place otherwise" allowance unnecessary. *)
+Theorem float_exit_is_the_rounded_exact_value : forall n c e, (0 <= c)%Z ->
+  f64_of_dec (Fin n c e) = f64_of_ratio n (dec_num c e) (dec_den e).
+Proof. exact f64_of_dec_ratio. Qed.
+
+Theorem float_exit_nearest_ties_even : forall neg num den n m e, (0 <= num)%Z -> (0 < den)%Z ->
+  f64_of_ratio neg num den = FFin n m e -> nearest_even num den m e.
+Proof. exact f64_of_ratio_nearest_even. Qed.
+
+Theorem float_exit_nearest_is_unique : forall num den m1 e1 m2 e2, (0 < den)%Z ->
+  nearest_even num den m1 e1 -> nearest_even num den m2 e2 -> m1 = m2 /\ e1 = e2.
+Proof. exact nearest_even_unique. Qed.
+
+Theorem float_exit_overflows_exactly_from : forall neg num den, (0 < den)%Z ->
+  (f64_of_ratio neg num den = FInf neg <-> ((2 ^ 1024 - 2 ^ 970) * den <= num)%Z).
+Proof. exact f64_of_ratio_inf_iff. Qed.
+
+Theorem float_exit_exact_when_representable : forall neg num den m' e', (0 < den)%Z -> rep m' e' ->
+  (num * 2 ^ 1074 = m' * 2 ^ (e' + 1074) * den)%Z ->
+  exists m e, f64_of_ratio neg num den = FFin neg m e /\ canon m e /\ (m * 2 ^ (e + 1074) = m' * 2 ^ (e' + 1074))%Z.
+Proof. exact f64_of_ratio_exact. Qed.
+
+Theorem float_exit_monotone : forall neg1 neg2 n1 d1 n2 d2, (0 <= n1)%Z -> (0 < d1)%Z -> (0 < d2)%Z ->
+  (n1 * d2 <= n2 * d1)%Z -> f64_mag_le (f64_of_ratio neg1 n1 d1) (f64_of_ratio neg2 n2 d2).
+Proof. exact f64_of_ratio_mono. Qed.
+
+Theorem float_exit_bits_injective : forall f g, f64_canon f -> f64_canon g -> f64_bits f = f64_bits g -> f = g.
+Proof. exact f64_bits_inj. Qed.
+
+Theorem float_exit_canonical : forall d, match d with Fin _ c _ => (0 <= c)%Z | _ => True end -> f64_canon (f64_of_dec d).
+Proof. exact f64_of_dec_canon. Qed.
+
+Print Assumptions float_exit_is_the_rounded_exact_value.
+Print Assumptions float_exit_nearest_ties_even.
+Print Assumptions float_exit_nearest_is_unique.
+Print Assumptions float_exit_overflows_exactly_from.
+Print Assumptions float_exit_exact_when_representable.
+Print Assumptions float_exit_monotone.
+Print Assumptions float_exit_bits_injective.
+Print Assumptions float_exit_canonical.
 Print Assumptions val_def.
 Print Assumptions rounds_to_def.
 Print Assumptions rounds_to_unique.
